@@ -69,10 +69,11 @@ Proof.
   intros H; inversion H; subst. apply index_of_nat_bound in E. lia.
 Qed.
 
-(** What an allocating operation may have done to the ledger when it did not succeed: exactly one request
-    was made and refused; nothing else moved. *)
+(** What an allocating operation may have done to the ledger when it did not succeed: at most one request
+    was made and refused (none when the byte size of the buffer is not representable: the request is then
+    not even made); nothing else moved. *)
 Definition refused_once (al al' : alloc_st) : Prop :=
-  live al' = live al /\ next_id al' = next_id al /\ nreq al' = nreq al + 1 /\ limit al' = limit al.
+  live al' = live al /\ next_id al' = next_id al /\ nreq al <= nreq al' <= nreq al + 1 /\ limit al' = limit al.
 
 (** expand_capacity under the invariant: no fault; either the capacity grew strictly (old buffer released,
     new one owned) with the contents untouched, or the allocator refused the request and nothing but the
@@ -90,6 +91,9 @@ Proof.
   replace (a_cap a =? W - 2) with false by (unfold W in *; lia).
   set (new0 := a_cap a * a_num a / a_den a).
   set (new := if new0 <=? a_cap a then W - 2 else new0).
+  unfold g_array_expand_bytes, SIZE_MAX.
+  destruct (((W - 1) / 8) <? new) eqn:Eby.
+  { do 3 eexists. split; [reflexivity|]. right. repeat apply conj; auto; lia. }
   destruct (alloc (a_mem a) (wmul new 8) al) as [[b|] a1] eqn:Ea.
   - destruct (alloc_wf _ _ _ _ _ Hw Ea) as (Hw1 & Hlim & Hq & -> & Hlive & Hnid & Hgr).
     assert (Hnew : new = new0 /\ a_cap a < new0).
@@ -119,7 +123,7 @@ Proof.
       all: try (apply (owned_after_release _ _ a1 a2 (a_blk a) Hiff); [eapply owned_new; eauto|lia]). }
     repeat apply conj; cbn [set_buf a_data a_cap a_slots a_num a_den a_hdr a_blk a_mem]; auto; try lia.
   - destruct (alloc_wf _ _ _ _ _ Hw Ea) as (Hw1 & Hlim & Hq & Hlive & Hnid).
-    do 3 eexists. split; [reflexivity|]. right. repeat apply conj; auto.
+    do 3 eexists. split; [reflexivity|]. right. repeat apply conj; auto; lia.
 Qed.
 
 Lemma inv_refused a al al' : arr_inv a al -> refused_once al al' -> arr_inv a al'.
@@ -238,7 +242,7 @@ Proof.
       repeat apply conj; cbn [set_buf a_data a_cap a_slots a_num a_den a_hdr a_blk a_mem]; auto; try lia.
       all: rewrite Hl2, Hlim; assumption.
     + destruct (alloc_wf _ _ _ _ _ Hw Ea) as (Hw1 & Hlim & Hq & Hlive & Hnid).
-      do 3 eexists. split; [reflexivity|]. right. repeat apply conj; auto.
+      do 3 eexists. split; [reflexivity|]. right. repeat apply conj; auto; try lia.
 Qed.
 
 (** The non-allocating operations coincide with the ideal list, for every index below 2^64. *)
